@@ -39,7 +39,7 @@ var c12Bound = []*big.Int{big.NewInt(0), big.NewInt(1), big.NewInt(2), nMinus2, 
 
 // systematic: boundary privs for TestPrivateKey/DerivePublic; each boundary as first
 // generator candidate; boundary coordinate pairs.
-func c12SysN() int { return len(c12Bound)*3 + 8 }
+func c12SysN() int { return len(c12Bound)*3 + 12 }
 
 func (c12) Plan(tier string) core.Plan {
 	if tier == "thorough" {
@@ -96,10 +96,21 @@ func sqrtP(a *big.Int) (*big.Int, bool) {
 	return y, true
 }
 
+func c12SqrtB() *big.Int {
+	y, ok := sqrtP(ref.SM2B)
+	if !ok {
+		panic("b is not a square mod p")
+	}
+	return y
+}
+
 // smallXPoint finds a curve point with x small enough that x+p still fits 32 bytes.
 func smallXPoint(r *core.Rand) (x, y *big.Int) {
-	for {
+	for try := 0; ; try++ {
 		x = big.NewInt(int64(r.Intn(1 << 20)))
+		if try == 0 && r.Chance(1, 3) {
+			x = big.NewInt(int64(r.Intn(3))) // x = 0, 1, 2: the alias x+p is p, p+1, p+2
+		}
 		rhs := new(big.Int).Exp(x, big.NewInt(3), ref.SM2P)
 		rhs.Add(rhs, new(big.Int).Mul(ref.SM2A, x))
 		rhs.Add(rhs, ref.SM2B)
@@ -160,6 +171,11 @@ func (c12) Generate(idx int, r *core.Rand, tier string) core.Script {
 			{make([]byte, 32), make([]byte, 32)},
 			{ref.Pad32(ref.SM2P), ref.Pad32(g.Y)},
 			{ref.Pad32(g.Y), ref.Pad32(g.X)},
+			// x = 0 is on the curve (b is a square): its alias x = p must be refused
+			{ref.Pad32(big.NewInt(0)), ref.Pad32(c12SqrtB())},
+			{ref.Pad32(ref.SM2P), ref.Pad32(c12SqrtB())},
+			{ref.Pad32(ref.SM2P), ref.Pad32(new(big.Int).Sub(ref.SM2P, c12SqrtB()))},
+			{ref.Pad32(c12SqrtB()), ref.Pad32(ref.SM2P)},
 		}
 		pr := pairs[idx-3*nb]
 		return &c12Script{Op: "CheckOnCurve", X: hx(pr[0]), Y: hx(pr[1]), Note: "sys coordinate pair"}
